@@ -348,6 +348,10 @@ def run_case(case: Any, pid: str) -> Verdict:
         blind |= set(range(started[j], fb_from[j]))
         if close is not None and close[0] == j:
             blind |= {close[1], close[1] + 1}
+            # closed before the fallback stream delivers: the first round the error path serves from the fallback is the
+            # one that re-aligns the other streams (it is dropped when they are behind), like the round of the close
+            first = max(close[1], min(fb_from[j], nticks))
+            blind |= {first, first + 1}
         # a raising primary before the fallback stream delivers drops the round (like a closed stream); when it
         # raises at the very tick of the first fallback sample, that sample is already buffered and the error
         # path reads the one after it, so the term runs one tick ahead until the next round re-aligns it:
